@@ -75,6 +75,10 @@ CHECKS = {
          "Tie: all call sequences up to length 3 (thorough; sampled in quick) + random long ones on real Message objects vs Handle.calls; random set_*/add_callback prefixes through the real Worker vs the model and Pred.C16.orderOk.",
          "sequential calls only.",
          "Lean 4 proof (induction over call sequences / declarations) + exhaustive small-scope differential correspondence", "§5 C16"),
+ "C17": ("Lean: for EVERY tree of wrapped operations (any nesting depth / fan-out) a top-level call emits exactly before + (after iff it succeeds) and nothing for nested calls (signal_shape, nested_silent, no_emitter_silent); arguments by name (args_by_name_positional/keyword, dict.update semantics); a subscriber sees only the arguments its parameters name (subscriber_sees_only_named); routing_own_connection for any number of processors, witness of the repaired shared-emitter defect. "
+         "Tie: a tracing shim under every wrapper records the operation trees the real code executed (call-level scripts incl. raising operations and all argument styles; whole job lifecycles on two workers of two connections); recording subscribers record every signal; per operation the recorded signals = Mw.run of the traced tree, by argument identity, with before finished before / after started after the operation, delivered to the own connection only; every scenario re-run without subscribers: same results, exceptions, operations and state (times stripped).",
+         "in-memory brokers; subscribers raise Exception (not BaseException); the outcome's independence of subscribers is decided on implementation runs (8 subscriber kinds), the model has no subscriber input. Defect F9 repaired by fix: 1c6a66c.",
+         "Lean 4 proof (structural induction over operation trees) + trace-level correspondence + differential runs", "§5 C17"),
  "C19": ("Lean theorems (all retry numbers, all timestamps/periods, unbounded Int/Nat) about Sched.backoff/nextDefer/computeNext/overdue; "
          "the model functions are compared with the real retry policy, compute_next_execution_time, _prepare_* and the four is_overdue copies under a pinned clock, "
          "and the Lean predicates are evaluated on the implementation's values.",
